@@ -46,7 +46,7 @@ type level struct {
 
 func plan(thorough bool) []level {
 	if thorough {
-		return []level{{menuFull, false, 0}, {menuFull, false, 0}, {menuMini, true, 60}}
+		return []level{{menuFull, false, 0}, {menuFull, false, 0}, {menuMini, true, 64}, {menuMini, true, 30}}
 	}
 	return []level{{menuFull, false, 0}, {menuMini, true, 0}}
 }
